@@ -163,7 +163,7 @@ TNext ==
                     ELSE IF e.a[1] = "KillAt" /\ e.a[4][1] = "Tick" THEN e.a[2] ELSE Nil
      /\ IF (\E n \in Nodes : node'[n].alive /\ node'[n].log = <<>>) \/ (\E n \in Nodes : node[n].alive /\ node[n].log = <<>>)
         THEN UNCHANGED gvarsNoTick
-        ELSE GNextWith(IF Has(e, "atkill") THEN {[hist |-> e.atkill.hist, log |-> e.atkill.log, commit |-> e.atkill.commit, term |-> e.atkill.term]} ELSE {})
+        ELSE GNextWith(IF Has(e, "atkill") THEN {[n |-> e.atkill.n, hist |-> e.atkill.hist, log |-> e.atkill.log, commit |-> e.atkill.commit, term |-> e.atkill.term]} ELSE {})
      /\ LET \* a node whose log became EMPTY (the code then fails on every access to its last entry): every formula and
             \* step function presupposes a non-empty log, so such states are reported by one formula of their own
             emptyNow == \E n \in Nodes : node[n].alive /\ node[n].log = <<>>
